@@ -287,7 +287,7 @@ def c13_apply(op, spec, cfg, rnd):
         fname = rnd.choice(sorted(PARAM_FEATURES))
         legal = PARAM_FEATURES[fname]
         cands = [p for p in ["bogus", "mode", "name", "vis", "struct_name", "struct", "value", "names", "rename", "Mode", "NAME",
-                             "visibility", "r#mode"] if p not in legal]
+                             "visibility"] if p not in legal]
         pname = rnd.choice(cands)
         form = rnd.choice(["bare", "value"])
         ptxt = pname if form == "bare" else "%s = \"x\"" % pname
